@@ -74,6 +74,9 @@ var VarCorpus = []string{
 	"[RangeIter[YX MkClo Decl2 CallClo EX]]",
 	"[RangeIter[Decl YX] EX]",
 	"[Block[MkGet Decl2 YX CallGet]]",
+	"[SwPlain[Decl MkGet YX Decl2 CallGet][EX]]",  // re-declaration directly in a case clause body
+	"[TySwPlain[Decl MkPtr YX Decl2 CallGet] EX]", //
+	"[SwPlain[Decl MkClo IfElse[YX][EX] Decl2 CallClo][YX]]",
 }
 
 // capturesLoopVar: a closure is created inside a loop that declares its own x.
